@@ -13,9 +13,9 @@ import (
 	"context"
 	"fmt"
 	"net"
-	"runtime"
 	"os"
 	"os/exec"
+	"runtime"
 	"strings"
 	"sync"
 	"testing"
